@@ -181,12 +181,9 @@ def transparent(cfg, seq):
 
 
 def valid(cfg, seq):
-    """sequences the searcher may execute in-process. SABA with keep_unsynchronized=1 dereferences a NULL cache when
-    synchronize is called before the first step (known finding, probed separately in a child process by the harness)."""
-    if not any(o[0] in ("step", "integrate") for o in seq): return False
-    if cfg["integ"] == "saba" and cfg.get("keep"):
-        return seq[0][0] in ("step", "integrate")
-    return True
+    """sequences worth running: at least one step.  (SABA with keep_unsynchronized=1 used to dereference a NULL cache when
+    synchronize was called before the first step; fixed in /repo, still probed in a child process by the harness.)"""
+    return any(o[0] in ("step", "integrate") for o in seq)
 
 
 def make_valid(cfg, seq):
@@ -297,8 +294,28 @@ def safe_vs_unsafe(cfg, nsteps, keep):
     # (d(angle) ~ 1.5 n t d(a)/a). tolerance = 200 eps * steps * (1 + total angle)
     nmax = 2 * math.pi        # innermost orbit has a = 1, G = M = 1: period 2 pi
     angle = abs(cfg["dt"]) * nsteps
-    tol = 200 * EPS * nsteps * (1.0 + 1.5 * angle)
+    tol = 2000 * EPS * nsteps * (1.0 + 1.5 * angle)
+    if cfg.get("corrector", 0) >= 11: tol *= 10      # 10..16 long back-and-forth Kepler drifts per corrector application
     return (err, tol, "")
+
+
+def recalc_check(cfg, nsteps, marks):
+    """WHFast, safe_mode=0: requesting a recalculation of the coordinates (recalculate_coordinates_this_timestep=1, what
+    reb_simulation_step does around timestep modifications) on an unsynchronized state must first complete the pending
+    half step: the run equals safe mode to rounding."""
+    a = run_seq(dict(cfg, safe=1, keep=0), [("step", nsteps)])
+    sim = make(dict(cfg, safe=0, keep=0))
+    for i in range(nsteps):
+        if i in marks:
+            sim.ri_whfast.recalculate_coordinates_this_timestep = 1
+        sim.steps(1)
+    sim.synchronize()
+    b = pstate(sim)
+    sc = scales(cfg, a["p"])
+    err = maxdiff(a["p"], b, sc)
+    angle = abs(cfg["dt"]) * nsteps
+    tol = 2000 * EPS * nsteps * (1.0 + 1.5 * angle) * (10 if cfg.get("corrector", 0) >= 11 else 1)
+    return err, tol
 
 
 def eos_check(cfg, nsteps):
@@ -309,7 +326,9 @@ def eos_check(cfg, nsteps):
     sc = scales(cfg, a["p"])
     err = maxdiff(a["p"], b["p"], sc); trunc = maxdiff(a["p"], h["p"], sc)
     angle = abs(cfg["dt"]) * nsteps
-    tol = 50 * trunc + 200 * EPS * nsteps * (1.0 + 1.5 * angle)
+    # merged drift over 2*a0*dt versus two drifts over a0*dt: the embedded scheme (order p) is up to 2^p times less
+    # accurate on the merged interval; the cases generated here use embedded schemes of order <= 4
+    tol = 200 * trunc + 2000 * EPS * nsteps * (1.0 + 1.5 * angle)
     return err, tol, trunc
 
 
@@ -347,7 +366,7 @@ def main():
         scfgs = kcfgs + [{"integ": "mercurius"}, {"integ": "mercurius", "ntest": 2}]
         ecfgs = [{"integ": "eos", "phi0": p, "phi1": q, "n": n} for p in range(9) for (q, n) in ((0, 2), (1, 1))]
     # ---- (i) transparency under keep_unsynchronized
-    reps = 3 if thorough else 1
+    reps = 100 if thorough else 20
     for c0 in kcfgs * reps:
         cfg = finish_cfg(rng, dict(c0, safe=0, keep=1))
         if cfg["integ"] == "whfast512": cfg["dt"] = abs(cfg["dt"])
@@ -362,7 +381,7 @@ def main():
             fail("keep_unsynchronized-not-transparent:" + cfg["integ"], why, {"check": "transparent", "cfg": cfg, "seq": small, "original_seq": seq})
     # ---- (ii) safe mode vs deferred synchronisation
     worst = {}
-    for c0 in scfgs:
+    for c0 in scfgs * (30 if thorough else 6):
         for keep in ((0, 1) if c0["integ"] in ("whfast", "saba", "whfast512") else (0,)):
             cfg = finish_cfg(rng, c0)
             if cfg["integ"] == "whfast512": cfg["dt"] = abs(cfg["dt"])
@@ -372,11 +391,14 @@ def main():
             except Exception as e:
                 err, tol, note = float("inf"), 0.0, "exception: %r" % (e,)
             rep["evaluations"] += 1; keys.add(("safe-vs-unsafe", label(cfg), keep, n))
-            worst[cfg["integ"]] = max(worst.get(cfg["integ"], 0.0), err / tol if tol else float("inf"))
+            if not (cfg.get("var", 0) and keep == 1) and not cfg.get("corrector2", 0):
+                worst[cfg["integ"]] = max(worst.get(cfg["integ"], 0.0), err / tol if tol else float("inf"))
             if not (err <= tol):
                 key = "deferred-sync-differs:" + cfg["integ"]
                 if cfg.get("var", 0) and keep == 1:
                     key = "whfast-variational-keep_unsynchronized-com-drift"
+                elif cfg.get("corrector2", 0):
+                    key = "deferred-sync-differs:whfast-corrector2"
                 else:
                     # shrink the number of steps
                     while n > 1:
@@ -385,7 +407,19 @@ def main():
                         n //= 2; err, tol = e2, t2
                 fail(key, "safe_mode=1 and safe_mode=0(+keep_unsynchronized=%d)+synchronize differ by %.3g (scaled), tolerance %.3g %s"
                      % (keep, err, tol, note), {"check": "safe_vs_unsafe", "cfg": cfg, "nsteps": n, "keep": keep})
-    for c0 in ecfgs:
+    for c0 in [c for c in scfgs if c["integ"] == "whfast" and not c.get("corrector2") and not c.get("var")] * (6 if thorough else 2):
+        cfg = finish_cfg(rng, c0)
+        n = rng.choice([3, 6, 12]); marks = sorted(rng.sample(range(1, n), rng.randint(1, 2)))
+        try:
+            err, tol = recalc_check(cfg, n, marks)
+        except Exception as e:
+            err, tol = float("inf"), 0.0
+        rep["evaluations"] += 1; keys.add(("recalc", label(cfg), n))
+        worst["recalc"] = max(worst.get("recalc", 0.0), err / tol if tol else float("inf"))
+        if not (err <= tol):
+            fail("recalculate-coordinates-drops-half-step:whfast", "recalculating the coordinates of an unsynchronized state changes the trajectory by %.3g (tolerance %.3g)" % (err, tol),
+                 {"check": "recalc", "cfg": cfg, "nsteps": n, "marks": marks})
+    for c0 in ecfgs * (12 if thorough else 3):
         cfg = finish_cfg(rng, c0); cfg["dt"] = rng.choice([0.02, 0.05]) * 2 * math.pi
         n = rng.choice([2, 8, 30])
         try:
@@ -393,13 +427,15 @@ def main():
         except Exception as e:
             err, tol, trunc = float("inf"), 0.0, 0.0
         rep["evaluations"] += 1; keys.add(("eos", label(cfg), n))
+        if trunc > 1e-4:
+            continue        # truncation error too large for the comparison to say anything
         worst["eos"] = max(worst.get("eos", 0.0), err / tol if tol else float("inf"))
         if not (err <= tol):
             fail("deferred-sync-differs:eos", "EOS safe vs deferred differ by %.3g, truncation error %.3g, tolerance %.3g" % (err, trunc, tol),
                  {"check": "eos", "cfg": cfg, "nsteps": n})
     rep["stats"]["worst_err_over_tol"] = worst
     # ---- (iii) synchronize twice
-    for c0 in scfgs + ecfgs:
+    for c0 in (scfgs + ecfgs) * (20 if thorough else 4):
         for keep in ((0, 1) if c0["integ"] in ("whfast", "saba", "whfast512") else (0,)):
             cfg = finish_cfg(rng, dict(c0, safe=0, keep=keep))
             if cfg["integ"] == "whfast512": cfg["dt"] = abs(cfg["dt"])
@@ -436,6 +472,9 @@ def replay(rep):
     if ch == "sync_twice": return _safe(sync_twice, cfg, seq)
     if ch == "safe_vs_unsafe":
         err, tol, note = safe_vs_unsafe(cfg, r["nsteps"], r["keep"])
+        return None if err <= tol else "differs by %.3g (tolerance %.3g)" % (err, tol)
+    if ch == "recalc":
+        err, tol = recalc_check(cfg, r["nsteps"], r["marks"])
         return None if err <= tol else "differs by %.3g (tolerance %.3g)" % (err, tol)
     if ch == "eos":
         err, tol, trunc = eos_check(cfg, r["nsteps"])
